@@ -272,8 +272,9 @@ class C11(PropertyCheck):
                     if specs2 and any(sc.used_of(x) for x in specs2):
                         derived = (specs2, durs2, chained(specs2, durs2, method, perm, shuffle, sch, hist, store, oid, edits))
             else:
+                form = "npint" if rng.random() < 0.12 else "list"
                 try:
-                    ins = sc.make_instructions(specs, durs)
+                    ins = sc.make_instructions(specs, durs, form)
                     if any(i.duration * sc.DEN != d for i, d in zip(ins, durs)):
                         raise AssertionError("duration not exact")
                 except AssertionError:
@@ -289,7 +290,7 @@ class C11(PropertyCheck):
                         log2 = sc.ShuffleLog(replay=log.log) if log else None
                         st, cyc = sc.impl_schedule(ins, method, perm, log2, cons=cons, return_cycles_list=True,
                                                    random_shuffle=bool(shuffle))
-                    r = (st, starts, cyc, shuf, None)
+                    r = (st, starts, cyc, shuf, None if form == "list" else form)
             for sp, du, rr, edited in ((specs, durs, r, False),) + (((derived[0], derived[1], derived[2], True),) if derived else ()):
                 cases.append((sp, du, method, perm, shuffle, edited, cons))
                 impl.append(rr)
@@ -299,6 +300,10 @@ class C11(PropertyCheck):
             used = [sc.used_of(s) for s in specs]
             nontriv = any(used[i] & used[j] for i in range(len(specs)) for j in range(i + 1, len(specs)))
             inp = {"ins": [[s[0], s[1], s[2], d] for s, d in zip(specs, durs)], "method": method, "perm": perm, "shuf": shuf}
+            form = "list"
+            if isinstance(hist, str):            # container form of targets / controls of a non-chained case
+                form, hist = hist, None
+                inp["form"] = form
             if hist is not None:
                 inp["calls_before_on_this_scheduler"] = [
                     [[g[0], g[1], g[2], d] for g, d in zip(c["ins"], c["durs"])] + [c["cycles"], c["obj"], c["edits"]]
@@ -317,6 +322,8 @@ class C11(PropertyCheck):
                 w = {"history": hist, "method": method, "perm": perm, "scope": "covered"}
             if cons is not None:
                 w["cons"] = cons
+            if form != "list":
+                w["form"] = form
             m = sc.parse_model(o)
             mm = used_mismatch(specs)
             if mm:
@@ -336,6 +343,37 @@ class C11(PropertyCheck):
                 res.disagree(inp, m["cycles"], cyc, "cycles list", w)
             elif shuf is not None and m["used"] != len(shuf):
                 res.disagree(inp, m["used"], len(shuf), "number of shuffle calls", w)
+
+    def _cross_object(self, ctx, res, n):
+        """several Scheduler objects in one process (see c05._cross_object), pulse mode: start times of every call must equal
+        the stateless model for the settings the scheduler has at the time of the call"""
+        rng = ctx.rng
+        P3 = sc.placements(3, sc.FEW_NAMES)
+        cases = []
+        for _ in range(n):
+            def call():
+                L = rng.randint(2, 6)
+                return {"kind": "pulse", "ins": specs_from([rng.choice(P3) for _ in range(L)]),
+                        "durs": duration_stream(rng, L, rng.choice(KINDS)), "den": sc.DEN, "shuf": None, "cycles": False}
+            steps = sc.cross_object_steps(rng, call)
+            form = rng.choice(["list", "list", "npint"])
+            for k, (c, eff, st, r) in enumerate(sc.run_steps(steps, form)):
+                cases.append((steps, form, k, c, eff, st, r))
+        lines = [sc.model_line(eff["method"], eff["perm"], [fields_of(x) + (d,) for x, d in zip(c["ins"], c["durs"])], None, eff["cons"])
+                 for (_, _, _, c, eff, _, _) in cases]
+        for (steps, form, k, c, eff, st, r), o in zip(cases, ctx.driver("drv_sched").run(lines)):
+            inp = {"steps": [x if x["op"] != "call" else {"op": "call", "id": x["id"],
+                                                          "ins": [[g[0], g[1], g[2], d] for g, d in zip(x["call"]["ins"], x["call"]["durs"])]}
+                             for x in steps], "call": k, "form": form}
+            res.case(inp, nontrivial=True, tags=["cross-object", f"form={form}"])
+            w = {"steps": steps, "scope": "covered", "form": form}
+            m = sc.parse_model(o)
+            if m["status"] != "ok" or st != "ok":
+                if m["status"] != st:
+                    res.disagree(inp, m["status"], st, "verdict (cross-object history)", w)
+            elif m["starts"] != [sc.exact_num(x) for x in r]:
+                res.disagree(inp, m["starts"], [sc.exact_num(x) for x in r],
+                             f"start times of call {k + 1} (scheduler settings {eff})", w)
 
     def _flush(self, ctx, res, batch, tag):
         for i in range(0, len(batch), 5000):
@@ -395,6 +433,10 @@ class C11(PropertyCheck):
         batch = [(specs_from(seq), [d * sc.DEN for d in durs], m, p, k % 5 == 0)
                  for k, (seq, durs) in enumerate(shapes) for m, p in settings]
         self._flush(ctx, res, batch, "interleaved")
+        self._cross_object(ctx, res, 1200 if ctx.thorough else 200)
+        res.notes.append("cross-object histories (an earlier Scheduler's public attributes edited in place, then a fresh Scheduler; tag "
+                         "cross-object); container forms of targets / controls: lists and numpy integers in the correspondence, "
+                         "one-element numpy arrays in the oracles")
         # triples on which the rule is not transitive, all orders, priority-flipping duration patterns ---------------------
         batch = []
         for k, w in enumerate(self._nontransitive_witnesses()):
@@ -432,7 +474,8 @@ class C11(PropertyCheck):
         sch = sc.new_scheduler(method, perm, cons)
         calls = w["history"]
         store = {}
-        results = [sc.run_call(sch, c, method, perm, gate_of=gate_obj, store=store) for c in calls]
+        mk = gate_obj if w.get("form", "list") == "list" else (lambda x: sc.make_gate(x, w["form"]))
+        results = [sc.run_call(sch, c, method, perm, gate_of=mk, store=store) for c in calls]
         n = len(calls)
         for k, (c, (st, r)) in enumerate(zip(calls, results)):
             if c["kind"] != "pulse" or c.get("cycles") or not c["ins"] or all(not sc.used_of(s) for s in c["ins"]):
@@ -504,7 +547,27 @@ class C11(PropertyCheck):
                     calls.append({"kind": "pulse", "ins": specs, "durs": durs, "den": 1, "shuf": None, "cycles": True})
             yield {"history": calls, "method": rng.choice(["ASAP", "ALAP"]), "perm": True, "scope": "covered"}
 
+    def _replay_steps(self, ctx, w):
+        """several Scheduler objects in one process, public attributes of earlier ones edited in place; every pulse-mode
+        start-time result is judged by the five clauses for the settings its scheduler has at the time of the call"""
+        results = sc.run_steps(w["steps"], w.get("form", "list"))
+        n = len(results)
+        for k, (c, eff, st, r) in enumerate(results):
+            if c["kind"] != "pulse" or c.get("cycles") or not c["ins"] or all(not sc.used_of(x) for x in c["ins"]):
+                continue
+            if st != "ok":
+                return True, f"call {k + 1} of {n} (scheduler settings {eff}): schedule raised: {st}"
+            durs = [d / c["den"] for d in c["durs"]]
+            bad = timetable_checks(c["ins"], durs, [float(x) for x in r], eff["perm"], w.get("scope", "full"),
+                                   tol=w.get("tol", 0.0), cycles=None, cons=eff["cons"])
+            if bad:
+                return True, (f"call {k + 1} of {n}, on a Scheduler with settings {eff} created after / next to other Scheduler objects "
+                              f"of the process (instructions {[[g[0], g[1], g[2]] for g in c['ins']]}, durations {durs}): " + bad)
+        return False, f"{n} calls on several Scheduler objects: every returned timetable is valid"
+
     def oracle_replay(self, ctx, w):
+        if "steps" in w:
+            return self._replay_steps(ctx, w)
         if "history" in w:
             return self._replay_history(ctx, w)
         specs, den, method, perm, cons = w["ins"], w.get("den", 1), w["method"], w["perm"], w.get("cons")
@@ -516,7 +579,8 @@ class C11(PropertyCheck):
             return False, "no instruction uses a qubit (not a timed gate list)"
         _, Instruction, _, _, _ = sc._mods()
         try:
-            ins = [Instruction(gate_obj(s), duration=d) for s, d in zip(specs, durs)]
+            form = w.get("form", "list")
+            ins = [Instruction(gate_obj(s) if form == "list" else sc.make_gate(s, form), duration=d) for s, d in zip(specs, durs)]
         except Exception as e:
             return True, f"Instruction() raised {type(e).__name__}: {e}"
         log = None
@@ -552,6 +616,8 @@ class C11(PropertyCheck):
             w["method"] = rng.choice(sc.METHODS_ODD)
         if rng.random() < 0.25:
             w["cons"] = rng.choice(sc.CONS_LISTS)
+        if rng.random() < 0.3:
+            w["form"] = rng.choice(sc.FORMS[1:])
         if floats:     # arbitrary floats: only the final property, with a tolerance
             w.update(durs=[rng.choice([rng.uniform(0.01, 50.0), 10 ** rng.uniform(-6, 6)]) for _ in range(L)], den=1, tol=1e-6)
         else:
@@ -572,6 +638,40 @@ class C11(PropertyCheck):
         ([("CZ", [1], [0]), ("CZ", [2], [0]), ("CZ", [2], [1]), ("X", [0], [])], [1, 2, 3, 4]),
         ([("SNOT", [1], []), ("CNOT", [1], [0]), ("CNOT", [2], [0]), ("RZ", [0], []), ("SWAP", [1, 2], [])], [3, 1, 4, 1, 5]),
     ]
+
+    def _cross_object_witnesses(self, rng=None, count=0):
+        """histories over several Scheduler objects: the minimal ones first (use / edit scheduler 0 in place, then a fresh
+        default scheduler), then random ones"""
+        def call(seq, durs):
+            return {"kind": "pulse", "ins": specs_from(seq), "durs": list(durs), "den": 1, "shuf": None, "cycles": False}
+        if rng is None:
+            for seq, durs in self.CTOR_LISTS:
+                for what in ("clear", "pop", "append_a", "method:ALAP", "perm:0"):
+                    for m in ("ASAP", "ALAP"):
+                        yield {"steps": [{"op": "new", "id": 0, "method": m, "perm": True, "cons": None},
+                                         {"op": "call", "id": 0, "call": call(seq, durs)},
+                                         {"op": "mutate", "id": 0, "what": what},
+                                         {"op": "new", "id": 1, "method": m, "perm": True, "cons": None},
+                                         {"op": "call", "id": 1, "call": call(seq, durs)},
+                                         {"op": "call", "id": 0, "call": call(seq, durs)}], "scope": "covered"}
+        else:
+            for _ in range(count):
+                def mk():
+                    L = rng.randint(2, 4)
+                    return call([rng.choice(self.HIST_POOL) for _ in range(L)], [rng.choice([1, 2, 5]) for _ in range(L)])
+                yield {"steps": sc.cross_object_steps(rng, mk), "scope": "covered",
+                       "form": rng.choice(["list", "list", "npint", "array1"])}
+
+    def _form_witnesses(self):
+        """container forms of targets / controls (numpy integers, one-element numpy arrays) on small timed lists"""
+        lists = self.CTOR_LISTS + [([("CNOT", [1], [0]), ("X", [0], [])], [3, 1]), ([("X", [0], []), ("CNOT", [1], [0])], [1, 3]),
+                                   ([("CNOT", [1], [0]), ("SNOT", [0], []), ("CNOT", [2], [0])], [2, 1, 2]),
+                                   ([("CZ", [1], [0]), ("RX", [0], []), ("RZ", [1], [])], [2, 3, 1])]
+        for seq, durs in lists:
+            for form in sc.FORMS[1:]:
+                for m in ("ASAP", "ALAP"):
+                    yield {"ins": specs_from(seq), "durs": list(durs), "den": 1, "method": m, "perm": True, "shuf": None,
+                           "scope": "covered", "form": form}
 
     def _constructor_witnesses(self):
         """every kind of constructor argument: all `method` values x all constraint lists on a few small timed lists"""
@@ -602,6 +702,8 @@ class C11(PropertyCheck):
                            "scope": "covered"}
 
     def _systematic(self):
+        yield from self._form_witnesses()
+        yield from self._cross_object_witnesses()
         yield from self._nontransitive_witnesses()
         yield from self._constructor_witnesses()
         yield from self._interleaved_witnesses()
@@ -636,6 +738,11 @@ class C11(PropertyCheck):
     def oracle_always(self, ctx):
         # scope "covered": commutation decided by the matrices; only the two recorded known-finding classes are skipped
         # (see timetable_checks); the other clauses are evaluated for every list.
+        for w in itertools.chain(self._form_witnesses(), self._cross_object_witnesses(),
+                                 self._cross_object_witnesses(ctx.rng, 200)):
+            f, d = self.oracle_replay(ctx, w)
+            if f:
+                yield w, d
         nt = list(self._nontransitive_witnesses())
         for w in nt[:len(sc.DUR_PATTERNS3) * 2 * 48] + ctx.rng.sample(nt, 300):
             f, d = self.oracle_replay(ctx, w)
